@@ -34,6 +34,10 @@ Leave the worktree itself clean of the changes at the end (git checkout -- . ; r
 Environment notes: there is NO network. Use the default `go` (it switches to the cached Go 1.25 toolchain by itself); always pass -mod=mod to go build/test; do not set GOTOOLCHAIN or GOFLAGS. Example: `cd {wt} && go test -mod=mod -vet=off -count=1 ./pkg/scheduler/plugins/elasticquota/...`. Building a package the first time can take a minute or two. Do not run the whole repository test suite; the packages you touch (and packages that directly use the touched functions) are enough. Packages under pkg/koordlet/ (and anything importing them) cannot be compiled here without a workaround because a cgo header is missing: for those add `-overlay {wt}/.perf_overlay.json` to every go build / go test / go vet command (the file is already there; it swaps one cgo file for a stub and changes nothing else; git ignores nothing - do not add it to your patch). The machine is shared with other jobs: do not use more than 4 parallel processes (-p 4).
 
 If after a genuine effort one of the changes cannot be made to satisfy all conditions, deliver only the others and say so. In your final answer, summarise each change in 3-4 lines (file, function, what was changed, what it needs to manifest) and confirm the verification results.""")
+import os
+hint = os.environ.get("ROUND_HINT", "")
+if hint:
+    text = text.replace("YOUR TASK:", hint + "\n\nYOUR TASK:")
 for k,v in repl.items():
     text = text.replace(k, v)
 print(text)
